@@ -253,8 +253,18 @@ func init() {
 		if x.c != nil {
 			return x.c.Bit(int(i))
 		}
-		t := p.ctx.Mod(p.ctx.Div(x.t, p.ctx.IntC(pow2(uint(i)))), p.ctx.IntC64(2))
-		return symInt{types.Uint, p.ctx.Ite(p.ctx.Eq(t, p.ctx.IntC64(1)), p.ctx.BVC64(64, 1), p.ctx.BVC64(64, 0))}
+		c := p.ctx
+		var isOne *smt.Term
+		if i <= 8 {
+			isOne = c.Eq(c.Mod(c.Div(x.t, c.IntC(pow2(uint(i)))), c.IntC64(2)), c.IntC64(1))
+		} else {
+			// high bits of a symbolic integer: an uninterpreted predicate of the value (a
+			// function of x, not tied numerically to it: an over-approximation that keeps
+			// `div 2^i` by huge constants out of the queries)
+			isOne = c.App(fmt.Sprintf("bit_%d", i), smt.Bool, x.t)
+			p.res.Lemmas["bit-abstraction"]++
+		}
+		return symInt{types.Uint, c.Ite(isOne, c.BVC64(64, 1), c.BVC64(64, 0))}
 	})
 	B("SetBit", func(fr *frame, a []value) value {
 		p := fr.i.p
